@@ -148,3 +148,90 @@ Proof.
            true ex_liba_just [] (setup_var (lit "base")) H D1 R2 P O).
 Qed.
 Print Assumptions c04_hypotheses_inhabited.
+
+(* ================================================================================================
+   The composed model (Model/SetupFull.v: Model/Setup.v + the resolver of C03, see Props/C01.v).
+   ================================================================================================ *)
+From Eupsv Require Import Proofs.SetupInv Model.SetupFull Proofs.SetupFull Proofs.SetupFullKeep Proofs.SetupFullExample
+     Generated.Config.
+
+(* the frame theorem holds of the composed model (it is Model/Setup.v on the decisions it takes) *)
+Corollary setup_full_changes_only_what_it_reaches vcmp vmatch fw cfg rc flavors dl fuel st al vro name li fwd depth just :
+  WF (fw_products fw) dl -> nodollar_paths (fw_products fw) (s_env st) -> depth_ok cfg depth ->
+  good (fw_products fw) dl (touches (fw_products fw) (levels cfg depth just) name) st
+       (erase [] (setup_full vcmp vmatch fw cfg rc flavors fuel st al vro name li fwd depth just)).
+Proof. apply setup_full_frame_lemma. Qed.
+Print Assumptions setup_full_changes_only_what_it_reaches.
+
+(* --keep, the full statement (the code after the fix 6851e7d, with --keep the replaced requested product is
+   unset without its dependencies): with Eups.keep set and keep at the head of the VRO - which is what the
+   option --keep does, see keep_vro_shape below - every product OTHER THAN THE REQUESTED ONE that the environment
+   records before the request is recorded, with the same version, after it.  For every world satisfying WF2,
+   every database, every request form, --just / --max-depth included, and whether or not the requested product
+   itself is switched to another version.  The resolver half is keep_retains_partial_resolver; the setup half
+   (a product decided at its recorded version is not touched) is the content of keep_retains_partial_setup,
+   redone on the composed model in Proofs/SetupFullKeep.v together with the induction over the traversal
+   (the dictionary stays in sync with the environment, also across the restoration after a failed dependency). *)
+Theorem keep_retains vcmp vmatch fw cfg rc flavors dl rank fuel st al0 rest name li just ok st' al' tr n q :
+  WF2 (fw_products fw) dl rank -> c_keep cfg = true -> flavors <> [] ->
+  nodollar_paths (fw_products fw) (s_env st) ->
+  setup_full vcmp vmatch fw cfg rc flavors fuel st al0 (EKeep :: rest) name li true 0 just = FDone ok st' al' tr ->
+  n <> name ->
+  find_setup_product (fw_products fw) (s_env st) n = Some q ->
+  find_setup_product (fw_products fw) (s_env st') n = Some q.
+Proof.
+  intros H Hk Hf Hnd E Hne R.
+  apply (keep_retains_lemma vcmp vmatch fw cfg rc flavors dl rank H Hk Hf
+           (fun op ox f d rest0 rq => keep_retains_partial_resolver vcmp vmatch rc (db_of cfg fw) op ox f d rest0 rq)
+           fuel st al0 rest name li just ok st' al' tr Hnd E n q Hne R).
+Qed.
+Print Assumptions keep_retains.
+
+(* the same for a whole command whose VRO selectVRO starts with keep *)
+Corollary keep_retains_request vcmp vmatch fw cfg rc flavors dl rank fuel st rest name version just st' tr n q :
+  WF2 (fw_products fw) dl rank -> c_keep cfg = true -> flavors <> [] ->
+  nodollar_paths (fw_products fw) (s_env st) ->
+  select_vro rc (request_opts cfg version) = Ok (EKeep :: rest) ->
+  request_full vcmp vmatch fw cfg rc flavors fuel st name version true just = Ok (Some st', tr) ->
+  n <> name ->
+  find_setup_product (fw_products fw) (s_env st) n = Some q ->
+  find_setup_product (fw_products fw) (s_env st') n = Some q.
+Proof.
+  intros H Hk Hf Hnd V E Hne R. unfold request_full in E. rewrite V in E.
+  destruct (setup_full vcmp vmatch fw cfg rc flavors fuel st [] (EKeep :: rest) name _ true 0 just)
+    as [[|] st1 al1 tr1|st1 al1 tr1|tr1|tr1] eqn:X; try discriminate.
+  injection E as <- _.
+  exact (keep_retains vcmp vmatch fw cfg rc flavors dl rank fuel st [] rest name _ just true st1 al1 tr1 n q H Hk Hf Hnd X Hne R).
+Qed.
+Print Assumptions keep_retains_request.
+
+(* with the shipped configuration, --keep puts keep at the head of the VRO (version named or not) *)
+Example keep_vro_shape version :
+  exists rest, select_vro default_config (request_opts ex_cfg_keep version) = Ok (EKeep :: rest).
+Proof. exists ex_vro. apply ex_vro_keep. Qed.
+
+(* ---- inhabited ----  ex_fw (Proofs/SetupFullExample.v): from the state ex_libb (libb 1.0 and base 1.0 set up),
+   setup --keep base 2.0  switches the requested product and leaves libb as it is;  setup --keep app  sets up app and
+   liba, keeps libb, and keeps base at 1.0 although libb's table asks for base 2.0 (without --keep the same
+   request replaces base 1.0 by base 2.0). *)
+Example c04_keep_inhabited :
+  WF2 (fw_products ex_fw) (dl_of ex_world) (rank_of ex_order) /\ c_keep ex_cfg_keep = true /\ ex_flavors <> [] /\
+  (exists st' tr,
+     request_full_simple ex_fw ex_cfg_keep default_config ex_flavors 20 ex_libb (lit "base") (Some (lit "2.0")) true false
+       = Ok (Some st', tr) /\
+     find_setup_product ex_world (s_env st') (lit "base") = find_pv ex_world (lit "base") (lit "2.0") /\
+     find_setup_product ex_world (s_env st') (lit "libb") = find_setup_product ex_world (s_env ex_libb) (lit "libb")) /\
+  (exists st' tr,
+     request_full_simple ex_fw ex_cfg_keep default_config ex_flavors 20 ex_libb (lit "app") None true false
+       = Ok (Some st', tr) /\
+     find_setup_product ex_world (s_env st') (lit "base") = find_pv ex_world (lit "base") (lit "1.0") /\
+     find_setup_product ex_world (s_env st') (lit "liba") = find_pv ex_world (lit "liba") (lit "1.0")) /\
+  (exists st' tr,
+     request_full_simple ex_fw ex_cfg default_config ex_flavors 20 ex_libb (lit "app") None true false
+       = Ok (Some st', tr) /\
+     find_setup_product ex_world (s_env st') (lit "base") = find_pv ex_world (lit "base") (lit "2.0")).
+Proof.
+  split; [apply wf2_check_sound; vm_compute; reflexivity|]. split; [reflexivity|]. split; [discriminate|].
+  split; [|split]; eexists; eexists; repeat split; vm_compute; reflexivity.
+Qed.
+Print Assumptions c04_keep_inhabited.
